@@ -437,6 +437,10 @@ def run_inner(tier, replay):
 
     # ---- 1. every TLC job that does not need the implementation, concurrently ---------------------------
     jobs = list(QUICK_MC) + (THOROUGH_MC if thorough else [])
+    # quick: the open deviation, the seeded changes and the cheapest plausible bugs; thorough: all of them
+    quick_must = ("dev_InvocationInversion", "dev_PingSkippedWhenActive", "dev_FlushWriteMayTruncate", "dev_CloseOvertakesMessages",
+                  "dev_BroadcastAbortsOnDeadPeer", "dev_DoubleDisconnect", "dev_LateConnect", "reach_ParallelHandlers")
+    must = [m for m in MUST_VIOLATE if thorough or m[0] in quick_must]
     n_ideal = 250 if thorough else 40
     n_asw = 250 if thorough else 40
     sims = (("Gen_WsAsyncApp_sim_ideal.cfg", n_ideal, True, "lock-step replay (repaired-pool behaviours)"),
@@ -448,7 +452,7 @@ def run_inner(tier, replay):
         for name, note, exp, cover in sorted(jobs, key=lambda j: not j[0].startswith("t_")):
             big = name.startswith("t_")
             futs[name] = ex.submit(mc, name, 4 if big else 3, cover is not None, 3000 if big else 900)
-        for name, kind in MUST_VIOLATE:
+        for name, kind in must:
             futs[name] = ex.submit(mc, name, 1, False, 600)
         results = {k: f.result() for k, f in futs.items()}
         g = fw.result()
@@ -459,7 +463,7 @@ def run_inner(tier, replay):
         ctx.require_tlc_ok("MC_WsAsyncApp_" + name, r)
         if cover:
             ctx.require_cover("MC_WsAsyncApp_" + name, r, cover)
-    for name, kind in MUST_VIOLATE:
+    for name, kind in must:
         r = results[name]
         ctx.add_tlc("MC_WsAsyncApp_%s (%s): must be violated" % (name, kind), r)
         if r.violation != "invariant":
